@@ -68,6 +68,10 @@ pub(super) enum Action {
 
     /// Generic action with no specialized dependencies on access.
     Opaque,
+
+    /// Like `Opaque`, for an operation that never blocks (e.g. `try_lock`):
+    /// the thread stays runnable whatever happens to the object meanwhile.
+    OpaqueTry,
 }
 
 macro_rules! objects {
